@@ -11,6 +11,7 @@ import (
 	"net"
 	"os"
 	"os/signal"
+	"os/user"
 	"strings"
 	"time"
 )
@@ -473,4 +474,27 @@ func wTrace(s string) {
 		wTraceN++
 		vRecord(fmt.Sprintf("trace-%02d", wTraceN), fmt.Sprintf("t=%d proc=%d %s", vNow(), vCurProc(), s))
 	}
+}
+
+//verif:model os/user.LookupGroup
+func mLookupGroup(name string) (*user.Group, error) { return &user.Group{Gid: "1000", Name: name}, nil }
+
+//verif:model os/user.LookupGroupId
+func mLookupGroupId(gid string) (*user.Group, error) { return &user.Group{Gid: gid, Name: "g" + gid}, nil }
+
+//verif:model os.Chown
+func mChown(name string, uid, gid int) error { return nil }
+
+//verif:model os.Getuid
+func mGetuid() int { return 1000 }
+
+//verif:model os.Getgid
+func mGetgid() int { return 1000 }
+
+//verif:model os.Open
+func mOsOpen(name string) (*os.File, error) {
+	if name == "" {
+		return nil, errors.New("open : no such file or directory")
+	}
+	return new(os.File), nil
 }
